@@ -654,6 +654,8 @@ def replay(case, acc):
     if op.endswith("_faults"):
         one_fault_execution({k: v for k, v in case.items() if k != "choices"},
                             Chooser(case.get("choices") or []), acc)
+    elif "sver_first" in case:
+        run_sver_first(acc)
     elif op in ("read", "write"):
         run_rw(dict(buffer=case["buffer"], window=case["window"]), "quick",
                acc)
